@@ -667,8 +667,9 @@ static void gen_workload(uint64_t seed, uint64_t widx, const GenOpts& go, Plan& 
   pl.warm = (int)r.below(2);
   // swarm: number of tasks
   double u = r.unit();
-  int nt = u < 0.45 ? 2 : u < 0.70 ? 3 : u < 0.85 ? 4 : u < 0.95 ? 5 + (int)r.below(4) : 9 + (int)r.below(8);
-  if (!go.thorough && nt > 8) nt = 2 + (int)r.below(7);
+  int nt = u < 0.45 ? 2 : u < 0.68 ? 3 : u < 0.82 ? 4 : u < 0.92 ? 5 + (int)r.below(4) : 9 + (int)r.below(8);
+  // (the quick tier also reaches 16 threads: pools of N slots, per-thread tables and counters only
+  // misbehave once enough callers are inside at the same time)
   pl.tasks.resize((size_t)nt);
   // swarm: enabled families
   std::string fams;
@@ -692,7 +693,9 @@ static void gen_workload(uint64_t seed, uint64_t widx, const GenOpts& go, Plan& 
   }
   // focus set: a few templates most tasks draw from, so that several tasks are inside the same
   // function on the same object (or the same cold static) at once
-  int nfocus = 1 + (int)r.below(3);
+  // crowd workloads: many threads, all of them inside the same function
+  const bool crowd = nt >= 6 && r.coin(nt >= 9 ? 0.85 : 0.5);
+  int nfocus = crowd ? 1 : 1 + (int)r.below(3);
   std::vector<PlanOp> focus;
   for (int i = 0; i < nfocus; ++i) focus.push_back(random_op(r, pick_def(r, defs)));
   int maxops = go.thorough ? (r.coin(0.1) ? 20 : 8) : 4;
@@ -702,12 +705,12 @@ static void gen_workload(uint64_t seed, uint64_t widx, const GenOpts& go, Plan& 
     int heavy_task = 0;
     for (int i = 0; i < n; ++i) {
       PlanOp op;
-      if (r.coin(0.7)) {
+      if (r.coin(crowd ? 0.95 : 0.7)) {
         op = focus[(size_t)r.below(nfocus)];
         const OpDef* d = h::find_def(op.name.c_str());
         if (r.coin(0.25)) op.p[2] = r.below(d->nobj);
         if (r.coin(0.2)) { int64_t tmp = op.p[1]; op.p[1] = op.p[2]; op.p[2] = tmp; }  // same call, operands swapped
-        if (r.coin(0.15)) op.p[0] = r.below(d->nfn);
+        if (!crowd && r.coin(0.15)) op.p[0] = r.below(d->nfn);
         if (r.coin(0.5)) op.salt = r.u64();
         if (d->has_callback) op.throw_at = r.coin(0.15) ? (int)r.below(6) : -1;
       } else {
